@@ -105,6 +105,12 @@ fn place(rng: &mut Rng, text: &str, st: &mut Stats) -> Vec<scnr::ScannerMode> {
     let n_modes = rng.range(1, 3);
     let target_mode = rng.below(n_modes);
     let as_lookahead = rng.chance(1, 3);
+    // now and then all modes carry the same name (nothing forbids it; a mode must be examined
+    // whatever it is called)
+    let same_names = n_modes > 1 && rng.chance(1, 5);
+    if same_names && target_mode > 0 {
+        st.count("placed_in_a_later_mode_that_repeats_an_earlier_name");
+    }
     let mut modes = Vec::new();
     for mi in 0..n_modes {
         let n_pats = rng.range(1, 3);
@@ -143,7 +149,7 @@ fn place(rng: &mut Rng, text: &str, st: &mut Stats) -> Vec<scnr::ScannerMode> {
             }
         }
         modes.push(scnr::ScannerMode::new(
-            &format!("M{}", mi),
+            &(if same_names { "M".to_string() } else { format!("M{}", mi) }),
             pats,
             Vec::<(usize, usize)>::new(),
         ));
